@@ -86,7 +86,7 @@ theorem notify_sigs (P : Nat → Nat → Prop) (u : Nat) (topic : String) (pid :
   · erw [if_pos hp]; exact .refl
   · erw [if_neg hp]; exact emitEv_sigs P _ _ _ _ _
 
-theorem notify_k (u : Nat) (topic : String) (pid : Option Nat) (x : String) (s : State) :
+theorem C18h.notify_k (u : Nat) (topic : String) (pid : Option Nat) (x : String) (s : State) :
     (notify u topic pid x s).2.k = s.k := by
   unfold notify
   simp only [bind, getA, getW]
@@ -110,10 +110,10 @@ theorem callHook_sigs (P : Nat → Nat → Prop) (u : Nat) (h : String) (s : Sta
                         if spec.outs.length = 0 then 1 else spec.outs.length) "true" = "raise"
     · erw [if_pos ho]
       simp only [pure]
-      exact ⟨(hb _).trans (notify_sigs P _ _ _ _ _), by rw [notify_k]; rfl⟩
+      exact ⟨(hb _).trans (notify_sigs P _ _ _ _ _), by rw [C18h.notify_k]; rfl⟩
     · erw [if_neg ho]
       simp only [pure]
-      exact ⟨(hb _).trans (notify_sigs P _ _ _ _ _), by rw [notify_k]; rfl⟩
+      exact ⟨(hb _).trans (notify_sigs P _ _ _ _ _), by rw [C18h.notify_k]; rfl⟩
 
 /-- `os.kill(p, sg)`: the kernel's `kill`, one log entry for exactly this pid and signal -/
 theorem kKill_sigs (P : Nat → Nat → Prop) (p sg : Nat) (via : String) (s : State) (h : P p sg) :
@@ -140,6 +140,13 @@ theorem Kernel.Desc.trans {k : Kernel} {a b c : Nat} (h1 : k.Desc a b) (h2 : k.D
   induction h2 with
   | child c h => exact .step _ _ _ h1 h
   | step m c _ h ih => exact .step _ _ _ ih h
+
+/-- the last link of the chain -/
+theorem Kernel.Desc.last {k : Kernel} {q c : Nat} (h : k.Desc q c) :
+    ∃ m, (∃ p ∈ k.procs, p.pid = c ∧ p.ppid = some m) ∧ (m = q ∨ k.Desc q m) := by
+  cases h with
+  | child _ h => exact ⟨q, h, Or.inl rfl⟩
+  | step m _ h1 h2 => exact ⟨m, h2, Or.inr h1⟩
 
 /-- every parent link of `k'` is already a parent link of `k` -/
 def PShrink (k k' : Kernel) : Prop :=
@@ -663,7 +670,7 @@ theorem conf_notify (topic : String) (pid : Option Nat) (x : String) :
     Conf k0 u own sig (fun _ => True) (notify u topic pid x) := by
   intro s hs
   refine ⟨⟨?_, notify_pres (pidsSubLeafW u own) u topic pid x s hs.2⟩, notify_sigs _ u topic pid x s, trivial⟩
-  rw [notify_k]; exact hs.1
+  rw [C18h.notify_k]; exact hs.1
 
 /-- `Watcher.send_signal_process` (used by `kill_process` with `stop_children` and by the SIGKILL
     escalation) on an own worker is confined -/
@@ -963,6 +970,26 @@ theorem C18_signal_request_targets (props : JVal) (s : State) (u : Nat)
   · rw [h]; exact C18_signal_cmd_targets props s u hu
   · rw [h]; exact .refl
 
+/-- the same, spelled out on the appended part of the log -/
+theorem C18_signal_cmd_targets_log (props : JVal) (s : State) (u : Nat)
+    (hu : (getWatcherCmd ((props.get? "name").getD .null) s).1 = .ok u) :
+    (validateExecute "signal" props s).2.log = s.log ++ C18h.newLog s (validateExecute "signal" props s).2 ∧
+    ∀ p sg st via, Obs.sig p sg st via ∈ C18h.newLog s (validateExecute "signal" props s).2 →
+      sg = ((props.get? "signum").bind toSignumJ).getD 0 ∧
+      (p ∈ (getW u s).1.pids ∨ ∃ q ∈ (getW u s).1.pids, s.k.Desc q p) :=
+  (C18_signal_request_targets props s u hu).newLog
+
+/-- in particular a process that is neither listed by the named watcher nor a descendant of a listed
+    one — a worker of another watcher, an unrelated process — gets no signal from the request -/
+theorem C18_signal_never_reaches_others (props : JVal) (s : State) (u p : Nat)
+    (hu : (getWatcherCmd ((props.get? "name").getD .null) s).1 = .ok u)
+    (hp : p ∉ (getW u s).1.pids) (hd : ∀ q ∈ (getW u s).1.pids, ¬ s.k.Desc q p) :
+    ∀ sg st via, Obs.sig p sg st via ∉ C18h.newLog s (validateExecute "signal" props s).2 := by
+  intro sg st via hm
+  rcases ((C18_signal_cmd_targets_log props s u hu).2 p sg st via hm).2 with h | ⟨q, hq, h⟩
+  · exact hp h
+  · exact hd q hq h
+
 /-! ### a `pid` that is not a worker of the named watcher -/
 
 /-- a `pid` property addresses an own worker only if it is a non-negative JSON integer that is a key
@@ -1087,6 +1114,15 @@ theorem C18_signal_foreign_pid_no_signal (props : JVal) (s : State) (u : Nat) (p
     · simp only [if_neg hd]
   rw [h]
   exact ⟨rfl, .refl⟩
+
+/-- … also through validation: a `signal` request with a foreign `pid` leaves the state untouched -/
+theorem C18_signal_foreign_pid_request (props : JVal) (s : State) (u : Nat) (pj : JVal)
+    (hu : (getWatcherCmd ((props.get? "name").getD .null) s).1 = .ok u)
+    (hpid : props.get? "pid" = some pj) (hforeign : C18h.sigOwn (getW u s).1 pj = none) :
+    (validateExecute "signal" props s).2 = s := by
+  rcases C18h.ve_signal props s with h | ⟨e, h⟩
+  · rw [h, (C18_signal_foreign_pid_no_signal props s u pj hu hpid hforeign).1]
+  · rw [h]
 
 /-! ### a `pid` that is a worker of the named watcher: what each mode does -/
 
@@ -1222,7 +1258,7 @@ theorem C18h.activeLoop (l : List Nat) (out : List Nat) (s : State) :
 
 /-- **`get_active_processes` returns a sublist of the watcher's own `processes`** (same order, only
     dead ones dropped) and sends no signal (the log is untouched) -/
-theorem activeProcs_subset (u : Nat) (s : State) :
+theorem C18_active_procs_subset (u : Nat) (s : State) :
     (activeProcs u s).1.Sublist (getW u s).1.pids ∧ (activeProcs u s).2.log = s.log := by
   rw [C18h.activeProcs_eq]
   obtain ⟨⟨l', hl, he⟩, hlog⟩ := C18h.activeLoop (getW u s).1.pids [] s
@@ -1239,7 +1275,7 @@ def C18h.killGt (props : JVal) : Option Nat :=
 /-- the processes a `kill` request addresses: the active ones, filtered by `pid` when one is given -/
 def C18h.killProcs (props : JVal) (act : List Nat) : List Nat :=
   match pidOfProps props with
-  | some p => if p ≠ 0 then act.filter (fun q => (q : Int) = p) else act
+  | some p => act.filter (fun q => (q : Int) = p)
   | none => act
 
 /-- **`Kill.execute` filters the active processes of the named watcher by pid**: the pids handed to
@@ -1255,10 +1291,10 @@ theorem C18_kill_cmd_filters (props : JVal) (s : State) (u : Nat)
                (activeProcs u s).2
     execKill props s = (.ok (.future r.1 ""), r.2) ∧
     procs.Sublist act ∧ act.Sublist (getW u s).1.pids ∧ NoSig s (activeProcs u s).2 ∧
-    (∀ p : Int, pidOfProps props = some p → p ≠ 0 → ∀ q ∈ procs, (q : Int) = p) ∧
-    (∀ p : Int, pidOfProps props = some p → p ≠ 0 → (∀ q ∈ act, (q : Int) ≠ p) → procs = []) := by
+    (∀ p : Int, pidOfProps props = some p → ∀ q ∈ procs, (q : Int) = p) ∧
+    (∀ p : Int, pidOfProps props = some p → (∀ q ∈ act, (q : Int) ≠ p) → procs = []) := by
   intro act procs r
-  refine ⟨?_, ?_, (activeProcs_subset u s).1, .of_log_eq (activeProcs_subset u s).2, ?_, ?_⟩
+  refine ⟨?_, ?_, (C18_active_procs_subset u s).1, .of_log_eq (C18_active_procs_subset u s).2, ?_, ?_⟩
   · unfold execKill
     simp only [bind]
     have h2 := C18h.getWatcherCmd_state ((props.get? "name").getD .null) s
@@ -1270,21 +1306,17 @@ theorem C18_kill_cmd_filters (props : JVal) (s : State) (u : Nat)
   · show (C18h.killProcs props act).Sublist act
     unfold C18h.killProcs
     split
-    · split
-      · exact List.filter_sublist
-      · exact List.Sublist.refl _
+    · exact List.filter_sublist
     · exact List.Sublist.refl _
-  · intro p hp hp0 q hq
+  · intro p hp q hq
     have hq' : q ∈ C18h.killProcs props act := hq
     unfold C18h.killProcs at hq'
     rw [hp] at hq'
-    simp only [if_pos hp0] at hq'
     simpa using (List.mem_filter.mp hq').2
-  · intro p hp hp0 hall
+  · intro p hp hall
     show C18h.killProcs props act = []
     unfold C18h.killProcs
     rw [hp]
-    simp only [if_pos hp0]
     apply List.filter_eq_nil_iff.mpr
     intro q hq
     simpa using hall q hq
@@ -1310,14 +1342,18 @@ theorem C18_kill_unknown_watcher (props : JVal) (s : State) (e : Exc)
   subst hu h2
   rfl
 
-/-- **finding (a request that is not "the single given pid")**: `if pid:` in `Kill.execute` treats
-    `pid = 0` like "no pid": a `kill` request carrying `"pid": 0` — which is no worker — addresses
-    *all* active workers of the named watcher (still only workers of the named watcher). -/
-theorem C18_counterexample_kill_pid_zero (props : JVal) (act : List Nat) (h0 : pidOfProps props = some 0) :
-    C18h.killProcs props act = act := by
+/-- **`pid: 0` is a pid like any other** (as repaired in /repo: `if pid is not None`; the pinned tree
+    tested `if pid:` and a request carrying `"pid": 0` — which is no worker — addressed *all* active
+    workers of the named watcher): no worker has pid 0, so nothing is addressed. -/
+theorem C18_kill_pid_zero_addresses_nobody (props : JVal) (act : List Nat) (h0 : pidOfProps props = some 0)
+    (hact : ∀ q ∈ act, q ≠ 0) : C18h.killProcs props act = [] := by
   unfold C18h.killProcs
   rw [h0]
-  simp
+  apply List.filter_eq_nil_iff.mpr
+  intro q hq
+  have := hact q hq
+  simp only [decide_eq_true_eq]
+  omega
 
 /-! ### a refused designation: no signal -/
 
@@ -1403,6 +1439,27 @@ example : c18new (sendSignalChild 100 101 12 c18s).2 = ["o sig 101 12 r"] ∧ c1
 -- the confinement predicate is not trivial: 101 descends from 100, and (C18_signal_cmd_targets) that is all
 example : c18s.k.Desc 100 101 := .child _ _ (by decide +kernel)
 example := C18_signal_cmd_targets (c18req [("recursive", .bool true)]) c18s 1 (by decide +kernel)
+-- … while the other watcher's worker 102 (a child of the daemon) is neither listed by "a" nor a
+-- descendant of 100: the hypotheses of C18_signal_never_reaches_others for p = 102
+example : 102 ∉ (getW 1 c18s).1.pids ∧ ∀ q ∈ (getW 1 c18s).1.pids, ¬ c18s.k.Desc q 102 := by
+  refine ⟨by decide +kernel, ?_⟩
+  intro q hq hd
+  have hq' : q = 100 := by
+    have : (getW 1 c18s).1.pids = [100] := by decide +kernel
+    rw [this] at hq; simpa using hq
+  subst hq'
+  obtain ⟨m, ⟨p, hp, hpid, hpp⟩, hm⟩ := hd.last
+  have h0 : ∀ p ∈ c18s.k.procs, p.pid = 102 → p.ppid = some 0 := by decide +kernel
+  have hm0 : m = 0 := by
+    have := h0 p hp hpid
+    rw [hpp] at this
+    injection this
+  subst hm0
+  rcases hm with h | h
+  · cases h
+  · obtain ⟨m', ⟨p', hp', hpid', _⟩, _⟩ := h.last
+    have h1 : ∀ p ∈ c18s.k.procs, p.pid ≠ 0 := by decide +kernel
+    exact h1 p' hp' hpid'
 example : c18new (execSignal (c18req [("pid", .int 100), ("recursive", .bool true)]) c18s).2
     = ["o sig 100 12 r", "o sig 101 12 r"] := by decide +kernel
 example : c18new (execSignal (c18req [("children", .bool true)]) c18s).2 = ["o sig 101 12 r"] := by decide +kernel
@@ -1422,12 +1479,14 @@ example := C18_signal_own_pid_childpid (c18req [("pid", .int 100), ("childpid", 
   (by decide +kernel) (by rfl) (by decide +kernel) (by rfl) (by decide)
 example := C18_signal_own_pid_plain (c18req [("pid", .int 100)]) c18s 1 100
   (by decide +kernel) (by rfl) (by decide +kernel) (by decide +kernel) (by decide +kernel) (by decide +kernel)
--- C18_kill_cmd_filters: pid filter, and the pid 0 finding
+example := C18_signal_own_pid_children (c18req [("pid", .int 100), ("children", .bool true)]) c18s 1 100
+  (by decide +kernel) (by rfl) (by decide +kernel) (by decide +kernel) (by decide +kernel)
+-- C18_kill_cmd_filters: pid filter, and pid 0 (addresses nobody since the repair)
 example : (activeProcs 1 c18s).1 = [100] := by decide +kernel
 example : C18h.killProcs (.obj [("name", .str "a"), ("pid", .int 102)]) [100] = [] ∧
     C18h.killProcs (.obj [("name", .str "a"), ("pid", .int 100)]) [100] = [100] ∧
     C18h.killProcs (.obj [("name", .str "a")]) [100] = [100] ∧
-    C18h.killProcs (.obj [("name", .str "a"), ("pid", .int 0)]) [100] = [100] := by decide +kernel
+    C18h.killProcs (.obj [("name", .str "a"), ("pid", .int 0)]) [100] = [] := by decide +kernel
 example : pidOfProps (.obj [("name", .str "a"), ("pid", .int 0)]) = some 0 := by decide +kernel
 -- C18_bad_designation_no_signal
 example : ((JVal.obj [("name", .str "a"), ("signum", .int 99)]).get? "signum").bind toSignumJ = none ∧
